@@ -9,14 +9,17 @@ ID = "C06"
 PROOF_FILES = ["C06Parse", "C06Lists", "C06Classes", "C06Color", "C06Entries", "C06Inv", "C06Cov", "C06Exist", "C06Build", "C06Pipe", "C06Attach", "C06AttachBase", "C06AttachLig", "C06AttachMkmk", "C06Sound", "C06Complete", "C06"]
 THEOREM = ("Ufo2ft.C06.C06_offset / C06_candidate / C06_sound / C06_ligature / C06_complete / C06_holds / C06_error / "
            "groups_no_shared_mark / colorGraph_is_proper / firstAvailable_smallest / C06_parse_shape / C06_parse_mark / "
-           "C06_parse_lig / C06_parse_null / C06_candidate_order_partial")
+           "C06_parse_lig / C06_parse_null / C06_candidate_order_partial / C06_offset_general / C06_ctx_offset / C06_ctx_holds / "
+           "C06_frame / C06_plain_lookups_have_no_contextual_anchor / C06_ctx_split / C06_ctx_error / C06_modelX_error")
 N = {"quick": 400, "thorough": 12000}
 RULE = ("random 'anchor fonts': 2-10 glyphs in the roles base / ligature / mark / Indic-Khmer base+mark / odd, each with a random "
         "set of named anchors (plain, '_'-prefixed, numbered 'x_N' incl. gaps, key-less '_N', 'top.alt'-style, keys ending in a digit, "
         "duplicates, unnamed, ignorable, contextual-without-data, a few malformed names that must raise), coordinates on the 1/8 grid "
         "with x.5 values, quantization in {1,5,10,2.5,0.5}, groupMarkClasses on/off, GDEF classes absent / from public.openTypeCategories / "
         "from a GDEF table in the feature file (with deliberately inconsistent categories), Devanagari/Kannada/Khmer/multi-script code "
-        "points with or without languagesystem statements (abvm/blwm routing), ufoLib2 and defcon.  The font is compiled with compileTTF "
+        "points with or without languagesystem statements (abvm/blwm routing), ufoLib2 and defcon; in a third of the fonts contextual anchors "
+        "('*key', '*key.alt', '*key_N' with object-lib data GPOS_Context = '* X' / 'X * Y' / '* [X Y]' / '* @class' / 'lookupflag ...; * X', also "
+        "empty libs, libs without the key, identifiers without lib entry, two-';' contexts, object libs on plain anchors).  The font is compiled with compileTTF "
         "and the MarkFeatureWriter, saved and reloaded; harness/gpos.py evaluates MarkBasePos/MarkLigPos/MarkMarkPos for EVERY ordered "
         "(glyph, glyph, component) triple, per feature (abvm, blwm, mark, mkmk) and over all four in lookup order (last wins).  The model's "
         "tables must be equal; `holds` (offset = qround(base) - qround(mark) of a matching source anchor pair; nothing else attached; every "
@@ -25,7 +28,7 @@ RULE = ("random 'anchor fonts': 2-10 glyphs in the roles base / ligature / mark 
 ASSUMED = [
     "feaLib compiles `pos base|ligature|mark` statements and markClass definitions as written (one MarkArray per lookup from the classes it references; a later anchor for the same class in one statement overrides an earlier one) - exercised on every case through the compiled font",
     "the ordered glyph set, the GDEF glyph classes and the abvm / not-abvm glyph sets (Unicode script extensions) are inputs of the model; the harness computes them independently from the case description and fontTools.unicodedata",
-    "anchor names are ASCII (Python's \\d and str.isalpha are Unicode-aware); contextual anchors with GPOS_Context lib data, pre-existing mark/mkmk/abvm/blwm feature blocks in the feature file (hand-written markClass definitions ARE modelled: input `pre`; the theorems assume none), variable fonts and GSUB closure of the abvm glyph set are not modelled",
+    "anchor names are ASCII (Python's \\d and str.isalpha are Unicode-aware); pre-existing mark/mkmk/abvm/blwm feature blocks in the feature file (hand-written markClass definitions ARE modelled: input `pre`; the theorems assume none), variable fonts and GSUB closure of the abvm glyph set are not modelled",
 ]
 
 BASE_KEYS = ["top", "bottom", "top.alt", "ogonek", "nukta", "bottomleft", "candra", "center", "top2", "topalt", "bottom.alt", "bottomcenter"]
@@ -766,5 +769,5 @@ LEVEL_NOTE = ("Hypothesis `wf`: glyph names distinct, every glyph in the abvm or
               "[A-Za-z0-9._] (outside it ufo2ft really violates the property: two known findings). Not proved: WHICH candidate wins when "
               "several keys match (C06_candidate_order_partial; the property allows any) - tied by correspondence only. Trusted: Lean kernel "
               "+ standard axioms; the correspondence harness and harness/gpos.py; feaLib's compilation of the generated statements; GDEF "
-              "classes / abvm glyph sets / glyph order are inputs. Not modelled: contextual anchors with lib data, append mode and "
+              "classes / abvm glyph sets / glyph order are inputs. Contextual anchors ('*' + GPOS_Context object-lib data) are modelled (Model/C06Ctx.lean): proved are the soundness of every contextual attachment (C06_ctx_offset), that plain lookups never use a contextual anchor and stay sound in their presence (C06_offset_general), the exact frame without object-lib data (C06_frame) and the error conditions; NOT proved: completeness of the contextual lookups and of the plain lookups when object-lib data is present (correspondence only). The dispatch (chaining) statements are compared as generated feature TEXT; the compiled ChainContextPos rules are checked against that text by the harness (restricted grammar) and the referenced lookups are evaluated in the compiled GPOS. Not modelled: contexts without '*' (feaLib rejects them), append mode and "
               "variable fonts, GSUB closure of abvm glyphs. Hand-written markClass definitions are modelled (compared exactly) but outside `wf`: the theorems assume the feature file defines none.")
